@@ -45,6 +45,17 @@ let gen_op (p : profile) (t : Stdlib.String.t array) : Stdlib.String.t =
               let fl = Stdlib.List.map (fun e -> match split ':' e with [ a; b ] -> (z_of_string a, z_of_string b) | _ -> failwith "first") (nonempty (split ',' firsts)) in
               generate_hdr10plus p cfg olong base (n_of_string fc) fl (Stdlib.List.map n_of_string (nonempty (split ',' lens)))
           | _ -> failwith "hdr"
+        else if has "madvr" then
+          (* madvr@<frame count>~<dur:max:avg[:t+t+..],...>~<maxcll:maxfall> *)
+          match split '~' (get "madvr") with
+          | [ fc; scenes; l6 ] ->
+              let sc = Stdlib.List.map (fun e -> match split ':' e with
+                  | [ d; a; b ] -> ((n_of_string d, (z_of_string a, z_of_string b)), [])
+                  | [ d; a; b; ts ] -> ((n_of_string d, (z_of_string a, z_of_string b)), Stdlib.List.map z_of_string (nonempty (split '+' ts)))
+                  | _ -> failwith "scene") (nonempty (split ',' scenes)) in
+              let cll, fall = match split ':' l6 with [ a; b ] -> (z_of_string a, z_of_string b) | _ -> failwith "l6" in
+              generate_madvr p cfg olong base (n_of_string fc) sc cll fall
+          | _ -> failwith "madvr"
         else generate p cfg olong base in
       (match r with
        | Ok l -> "ok " ^ (if l = [] then "-" else Stdlib.String.concat "," (Stdlib.List.map hex_of_bytes l))
